@@ -740,3 +740,897 @@ Qed.
 
 Lemma skipn_map {A B} (f : A -> B) : forall n l, skipn n (map f l) = map f (skipn n l).
 Proof. induction n as [|n IH]; intros [|a l]; cbn [skipn map]; auto. Qed.
+
+Lemma comps_length : forall fs fes, length fes = length fs -> length (comps_of fs fes) = length fes.
+Proof.
+  induction fs as [|[k ft] fs IH]; intros [|[p b] fes] Hl; try discriminate Hl; [reflexivity|].
+  cbn [comps_of length]. rewrite IH by (cbn [length] in Hl; lia). reflexivity.
+Qed.
+
+Lemma ext_part_x m afs afe : length afe = length afs -> N.of_nat (length afe) < two64 ->
+  open_ok afs afe -> Forall fe_inv afe ->
+  ~ more_than_64_additions (map fst afe) -> ~ first_addition_absent (map fst afe) ->
+  ext_part m afs afe =
+  Ok (existsb c_present (comps_of afs afe),
+      if existsb c_present (comps_of afs afe) then
+        x_normally_small_length (N.of_nat (length (comps_of afs afe)))
+          ++ map c_present (comps_of afs afe)
+          ++ flat_map (fun c : comp => if c_present c then x_open_type (c_bits c) else []) (comps_of afs afe)
+      else []).
+Proof.
+  intros Hl Hn Ho Fi H64 Hfa. unfold ext_part. unfold fenc in *.
+  rewrite (existsb_map c_present), (comps_present afs afe Hl), (comps_length afs afe Hl).
+  destruct afe as [|[p1 b1] rest].
+  - destruct afs; [reflexivity|discriminate Hl].
+  - cbn [map fst existsb] in *. destruct p1; cbn [orb].
+    + rewrite normally_small_write by lia. rewrite (add_payloads_x m afs _ Ho Fi). cbn [bind map fst].
+      f_equal. f_equal. f_equal.
+      assert (Hle : (length ((true, b1) :: rest) <= 64)%nat).
+      { destruct (Nat.le_gt_cases (length ((true, b1) :: rest)) 64) as [L|L]; [exact L|]. exfalso. apply H64.
+        split; [reflexivity|]. cbn [length] in *. rewrite map_length. lia. }
+      unfold x_normally_small_length, x_normally_small.
+      unfold fenc.
+      match goal with |- context [?a <=? 64] => replace (a <=? 64) with true by (cbn [length] in *; lia) end.
+      match goal with |- context [?a <=? 63] => replace (a <=? 63) with true by (cbn [length] in *; lia) end.
+      reflexivity.
+    + rewrite (existsb_map fst rest). destruct (existsb (fun p => p) (map fst rest)) eqn:Ee.
+      * exfalso. apply Hfa. cbn [first_addition_absent]. split; [reflexivity|exact Ee].
+      * reflexivity.
+Qed.
+
+Lemma presents_length : forall fs vals, length vals = length fs -> length (presents fs vals) = length fs.
+Proof.
+  induction fs as [|[k ft] fs IH]; intros [|ov vals] H; try discriminate H; [reflexivity|].
+  cbn [presents length]. rewrite IH by (cbn [length] in H; lia). reflexivity.
+Qed.
+
+Lemma Forall_skipn' {A} (P : A -> Prop) n l : Forall P l -> Forall P (skipn n l).
+Proof. intros H. rewrite <- (firstn_skipn n l) in H. apply Forall_app in H. tauto. Qed.
+Lemma Forall_firstn' {A} (P : A -> Prop) n l : Forall P l -> Forall P (firstn n l).
+Proof. intros H. rewrite <- (firstn_skipn n l) in H. apply Forall_app in H. tauto. Qed.
+
+Lemma C_seq m fs so fc ea : Forall (fun f => Cprop m (snd f)) fs -> Cprop m (TSeq fs so fc ea).
+Proof.
+  intros IH Hty Hp v bs Hv Hk Hx. destruct v; try discriminate Hx. rename fields into vals.
+  apply wf_ty_seq in Hty. destruct Hty as [(Hfc & Hlim & Hea & Hso) Hf].
+  rewrite x691_seq_eq in Hx. rewrite enc_seq_eq.
+  change (wf_val (TSeq fs so fc ea) (VSeq vals)) with (all_wf_vals fs vals) in Hv.
+  change (in_profile (TSeq fs so fc ea)) with (all_prof_fields fs) in Hp.
+  change (Known_C02 (TSeq fs so fc ea) (VSeq vals)) with
+    ((let ps := skipn (root_len fs ea) (presents fs vals) in
+      more_than_64_additions ps \/ first_addition_absent ps) \/ any_known_f2 ea fs vals 0) in Hk.
+  cbv zeta in Hk.
+  destruct (x_comps fs vals) as [cs|] eqn:Ec; [|discriminate Hx]. injection Hx as <-.
+  destruct (comps_x m ea fs IH Hf Hp vals cs 0%nat Hv ltac:(tauto) Ec) as (fes & E1 & E2 & E3 & E4 & E5 & E6).
+  rewrite E1. cbn [bind]. subst cs. unfold x_seq_assemble. cbv zeta.
+  destruct ea as [e|].
+  - cbn [root_len] in *. set (kr := S (N.to_nat e)) in *.
+    rewrite (seq_assemble_some m fs fes e kr eq_refl).
+    rewrite comps_firstn, comps_skipn.
+    pose proof (adds_ok_skipn (Some e) kr fs fes 0 E6) as Ha. cbn [Nat.add] in Ha.
+    apply (adds_open e _ _ kr ltac:(lia)) in Ha.
+    assert (La : length (skipn kr fes) = length (skipn kr fs)) by (rewrite !skipn_length; lia).
+    assert (Ps : skipn kr (presents fs vals) = map fst (skipn kr fes)) by (rewrite <- E4; apply skipn_map).
+    rewrite Ps in Hk.
+    rewrite (ext_part_x m (skipn kr fs) (skipn kr fes) La); [|
+      rewrite skipn_length; unfold SIZE_LIMIT, two64 in *; lia | exact Ha | apply Forall_skipn'; exact E5 | tauto | tauto].
+    cbn [bind]. rewrite <- flags_comps.
+    rewrite <- (payload_comps (firstn kr fs) (firstn kr fes));
+      [|rewrite !firstn_length; lia|apply Forall_firstn'; exact E5].
+    cbn [app]. reflexivity.
+  - cbn [root_len seq_assemble]. rewrite comps_firstn, comps_skipn.
+    rewrite (firstn_all fs), (skipn_all fs).
+    rewrite (firstn_all2 (n := length fs) fes) by lia. rewrite (skipn_all2 (n := length fs) fes) by lia.
+    cbn [comps_of existsb app]. rewrite app_nil_r.
+    rewrite <- flags_comps, <- (payload_comps fs fes E3 E5). reflexivity.
+Qed.
+
+(** * the induction *)
+Theorem enc_is_x691 m t : Cprop m t.
+Proof.
+  induction t using ty_ind'.
+  - intros _ _ v bs _ _ Hx. destruct v; try discriminate Hx. cbn [x691] in Hx. injection Hx as <-. reflexivity.
+  - intros _ _ v bs _ _ Hx. destruct v; try discriminate Hx. cbn [x691] in Hx. injection Hx as <-. reflexivity.
+  - apply C_int.
+  - apply C_str.
+  - apply C_octets.
+  - apply C_bitstr.
+  - apply C_list; assumption.
+  - apply C_seq; assumption.
+  - apply C_choice; assumption.
+  - apply C_enum.
+Qed.
+
+(** * the pinned forms *)
+Theorem reference_is_x691 m t v : wf_ty t -> wf_val t v -> in_profile t -> x691 t v <> None ->
+  ~ Known_C02 t v -> exists bs, x691 t v = Some bs /\ enc m t v = Ok bs.
+Proof.
+  intros Hty Hv Hp Hs Hk. destruct (x691 t v) as [bs|] eqn:E; [|congruence].
+  exists bs. split; [reflexivity|]. exact (enc_is_x691 m t Hty Hp v bs Hv Hk E).
+Qed.
+
+Theorem writer_is_x691 m t v bs w : wf_ty t -> wf_val t v -> in_profile t -> ~ Known_C02 t v ->
+  x691 t v = Some bs -> wst_wf w -> w_scope w = None ->
+  write_ty m t v w = Ok (w_append w bs).
+Proof.
+  intros Hty Hv Hp Hk Hx Hw Hs. pose proof (write_enc m t Hty v w Hw Hs) as S.
+  rewrite (enc_is_x691 m t Hty Hp v bs Hv Hk Hx) in S. exact S.
+Qed.
+
+(** * the classes of C01 (reader side) are inside [Known_C02] *)
+Lemma sized_some_root unit lo hi n body bs :
+  x_sized_run unit lo hi false n body = Some bs -> in_root lo hi n.
+Proof.
+  rewrite x_sized_run_eq. cbv zeta. unfold in_root.
+  destruct ((opt_or lo 0 <=? n) && match hi with Some u => n <=? u | None => true end) eqn:E; [|discriminate].
+  intros _. destruct hi; lia.
+Qed.
+Lemma list_form_root lo hi n body bs :
+  x_list_form lo hi false n body = Some bs -> in_root lo hi n.
+Proof.
+  unfold x_list_form, in_size, in_root. cbv zeta.
+  destruct (match lo with Some l => l <=? n | None => true end &&
+            match hi with Some h => n <=? h | None => true end) eqn:E; [|discriminate].
+  intros _. destruct lo, hi; cbn [opt_or]; lia.
+Qed.
+
+Lemma known_len_c02 lo hi ext up n : is_some lo = is_some hi -> n <= up ->
+  (ext = false -> in_root lo hi n) -> Known_C01_len lo hi up n -> Known_C02_size lo hi ext n.
+Proof.
+  intros Hp Hup Hr [[Hin Hk]|[H16 Hc]].
+  - left. unfold Known_C10_length_semi_or_large_bound in Hk. unfold count_in_range in Hin.
+    destruct hi as [u|].
+    + exists u. cbn [opt_or] in Hin. repeat split; lia.
+    + destruct lo; [discriminate Hp|]. exfalso. apply Hk. reflexivity.
+  - right. split; [exact H16|]. destruct Hc as [Hc|[-> ->]].
+    + destruct ext.
+      * right. split; [reflexivity|]. intros [R1 R2]. apply Hc. unfold count_in_range.
+        destruct hi; cbn [opt_or]; lia.
+      * exfalso. apply Hc. destruct (Hr eq_refl) as [R1 R2]. unfold count_in_range. destruct hi; cbn [opt_or]; lia.
+    + left. cbn [opt_or]. split; [reflexivity|lia].
+Qed.
+
+Definition Kprop (m : mode) (t : ty) : Prop :=
+  wf_ty t -> in_profile t -> forall v bs, wf_val t v -> x691 t v = Some bs -> ~ Known_C02 t v ->
+  ~ Known_C01 m t v.
+
+Lemma pick_known_nth m std i x : forall alts k,
+  pick_known m std i x alts k =
+  match nth_error alts k with
+  | Some a => Known_C01 m a x \/ (std <= i /\ Known_C01_open_type_16k m a x)
+  | None => False end.
+Proof. induction alts as [|a alts IH]; intros [|k]; cbn [pick_known nth_error]; auto. Qed.
+
+Lemma open16k_c02 m t x b : wf_ty t -> in_profile t -> wf_val t x -> x691 t x = Some b -> ~ Known_C02 t x ->
+  Known_C01_open_type_16k m t x -> open_type_16k t x.
+Proof.
+  intros Hty Hp Hv Hx Hk (b' & Eb & H16). rewrite (enc_is_x691 m t Hty Hp x b Hv Hk Hx) in Eb.
+  injection Eb as <-. exists b. split; [exact Hx|exact H16].
+Qed.
+
+Lemma K_fields m ea : forall fs, Forall (fun f => Kprop m (snd f)) fs -> all_wf_fields fs -> all_prof_fields fs ->
+  forall vals cs i, all_wf_vals fs vals -> x_comps fs vals = Some cs -> ~ any_known_f2 ea fs vals i ->
+  ~ any_known_f m ea fs vals i.
+Proof.
+  induction fs as [|[k ft] fs IHl]; intros F Hty Hp [|ov vals] cs i Hv Hx Hk; try contradiction Hv.
+  - cbn. tauto.
+  - apply Forall_cons_iff in F. destruct F as [HC F]. cbn [snd] in HC.
+    cbn [all_wf_fields] in Hty. destruct Hty as (Ht & Hd & Hty).
+    cbn [all_prof_fields] in Hp. destruct Hp as (Hp1 & Hp).
+    cbn [all_wf_vals] in Hv. destruct Hv as [Hv1 Hv].
+    cbn [any_known_f2] in Hk. rewrite x_comps_cons in Hx.
+    destruct (x_comp (k, ft) ov) as [c|] eqn:Ec; [|discriminate Hx].
+    destruct (x_comps fs vals) as [r|] eqn:Er; [|discriminate Hx].
+    cbn [any_known_f]. intros [C|C]; [|exact (IHl F Hty Hp vals r (S i) Hv Er ltac:(tauto) C)].
+    destruct ov as [x|]; [|exact C]. destruct C as [He C].
+    assert (Ex : exists b, x691 ft x = Some b).
+    { destruct k as [| |d]; cbn [x_comp] in Ec.
+      - destruct (x691 ft x) as [b|]; [eauto|discriminate Ec].
+      - destruct (x691 ft x) as [b|]; [eauto|discriminate Ec].
+      - cbn [encoded] in He. rewrite He in Ec. destruct (x691 ft x) as [b|]; [eauto|discriminate Ec]. }
+    destruct Ex as [b Eb].
+    assert (Hnk : ~ Known_C02 ft x) by (intros K; apply Hk; left; split; [exact He|left; exact K]).
+    destruct C as [C|(Ha & Hw & C)].
+    + exact (HC Ht Hp1 x b Hv1 Eb Hnk C).
+    + apply Hk. left. split; [exact He|]. right. split; [exact Ha|]. right. right.
+      exact (open16k_c02 m ft x b Ht Hp1 Hv1 Eb Hnk C).
+Qed.
+
+Theorem known_c01_c02 m t : Kprop m t.
+Proof.
+  induction t using ty_ind'; intros Hty Hp v bs Hv Hx Hk.
+  - destruct v; exact (fun C => C).
+  - destruct v; exact (fun C => C).
+  - destruct v; exact (fun C => C).
+  - (* strings *)
+    destruct v; try (exfalso; exact Hv). cbn [in_profile] in Hp.
+    destruct (match c with Utf8 => true | _ => false end) eqn:Ec.
+    + destruct c; try discriminate Ec. exact (fun C => C).
+    + assert (Hx' : (if forallb (cs_valid c) chars
+                     then x_run (char_unit c) lo hi e (N.of_nat (length chars)) (flat_map (x_char c) chars)
+                     else None) = Some bs) by (destruct c; try discriminate Ec; exact Hx).
+      assert (Hk' : ~ Known_C02_size lo hi e (N.of_nat (length chars))) by (destruct c; try discriminate Ec; exact Hk).
+      assert (E1 : Known_C01 m (TStr c lo hi e) (VStr chars) = Known_C01_len lo hi U64_MAX (N.of_nat (length chars)))
+        by (destruct c; try discriminate Ec; reflexivity).
+      rewrite E1. intros C. apply Hk'.
+      cbn [wf_val] in Hv. destruct Hv as [_ Hn]. pose proof (utf8_encode_len chars). unfold blen in Hn.
+      apply (known_len_c02 lo hi e U64_MAX _ Hp); [unfold U64_MAX, two64, SIZE_LIMIT in *; lia| |exact C].
+      intros ->. destruct (forallb (cs_valid c) chars); [|discriminate Hx'].
+      exact (sized_some_root _ _ _ _ _ _ Hx').
+  - destruct v; try discriminate Hx. cbn [Known_C01 Known_C02 in_profile] in *.
+    apply not_sized_known; assumption.
+  - destruct v; try discriminate Hx. cbn [Known_C01 Known_C02 in_profile x691 wf_val] in *.
+    destruct Hv as [Hc Hn]. destruct (canonical_content _ _ Hc) as (Hl & _ & Hle). cbv zeta in Hl.
+    unfold x_bitstring in Hx. fold (bl (firstn (N.to_nat bit_len) (bits_of_bytes bytes))) in Hx. rewrite Hl in Hx.
+    intros [C|C].
+    + revert C. apply not_sized_known; [exact Hp|]. intros C. apply Hk. left. exact C.
+    + revert C. eapply sized_some_not_16k; eassumption.
+  - (* SEQUENCE OF *)
+    destruct v; try discriminate Hx. destruct Hty as [Hb Hty]. destruct Hp as [Hp Hpe].
+    rewrite x691_list_eq in Hx. cbn [wf_val] in Hv. destruct Hv as [Hn Hv]. cbn [Known_C02] in Hk.
+    destruct (x_all (x691 t) vs) as [body|] eqn:Eb; [|discriminate Hx].
+    change (Known_C01 m (TListOf t lo hi x) (VList vs)) with
+      (Known_C01_len lo hi I64_MAX (N.of_nat (length vs)) \/ any_known m t vs).
+    intros [C|C].
+    + apply Hk. left. apply (known_len_c02 lo hi x I64_MAX _ Hp); [unfold I64_MAX, two63, SIZE_LIMIT in *; lia| |exact C].
+      intros ->. exact (list_form_root _ _ _ _ _ Hx).
+    + assert (Hk2 : ~ any_known2 t vs) by tauto. clear Hk Hx Hn.
+      revert body Eb Hv Hk2 C. induction vs as [|y vs IHl]; intros body Eb Hv Hk2 C; [exact C|].
+      cbn [x_all] in Eb. destruct (x691 t y) as [a|] eqn:Ea; [|discriminate Eb].
+      destruct (x_all (x691 t) vs) as [b|] eqn:Eb2; [|discriminate Eb].
+      cbn [all_wf_val] in Hv. cbn [any_known2] in Hk2. cbn [any_known] in C. destruct C as [C|C].
+      * exact (IHt Hty Hpe y a (proj1 Hv) Ea ltac:(tauto) C).
+      * exact (IHl b eq_refl (proj2 Hv) ltac:(tauto) C).
+  - (* SEQUENCE *)
+    destruct v; try discriminate Hx. rename fields into vals.
+    apply wf_ty_seq in Hty. destruct Hty as [_ Hf].
+    rewrite x691_seq_eq in Hx.
+    change (wf_val (TSeq fs so fc ea) (VSeq vals)) with (all_wf_vals fs vals) in Hv.
+    change (in_profile (TSeq fs so fc ea)) with (all_prof_fields fs) in Hp.
+    change (Known_C02 (TSeq fs so fc ea) (VSeq vals)) with
+      ((let ps := skipn (root_len fs ea) (presents fs vals) in
+        more_than_64_additions ps \/ first_addition_absent ps) \/ any_known_f2 ea fs vals 0) in Hk.
+    change (Known_C01 m (TSeq fs so fc ea) (VSeq vals)) with (any_known_f m ea fs vals 0).
+    destruct (x_comps fs vals) as [cs|] eqn:Ec; [|discriminate Hx].
+    apply (K_fields m ea fs H Hf Hp vals cs 0%nat Hv Ec). tauto.
+  - (* CHOICE *)
+    destruct v; try discriminate Hx. rename index into i, v into x.
+    destruct Hty as (H1 & H2 & H3 & H4 & Hty).
+    rewrite x691_choice_eq in Hx.
+    change (wf_val (TChoice alts std ext) (VChoice i x)) with (pick_wf x alts (N.to_nat i)) in Hv.
+    change (Known_C02 (TChoice alts std ext) (VChoice i x)) with (known_pick std i x alts (N.to_nat i)) in Hk.
+    change (Known_C01 m (TChoice alts std ext) (VChoice i x)) with (pick_known m std i x alts (N.to_nat i)).
+    rewrite pick_wf_nth in Hv. rewrite known_pick_nth in Hk. rewrite x_pick_nth in Hx. rewrite pick_known_nth.
+    destruct (N.leb_spec (N.of_nat (length alts)) i) as [Li|Li]; [discriminate Hx|].
+    destruct (nth_error alts (N.to_nat i)) as [a|] eqn:En; [|contradiction Hv].
+    pose proof (nth_error_In _ _ En) as Hin.
+    assert (Ka : Kprop m a) by (rewrite Forall_forall in H; apply H; exact Hin).
+    assert (Wa : wf_ty a) by (pose proof (all_wf_ty_Forall alts Hty) as F; rewrite Forall_forall in F; apply F; exact Hin).
+    assert (Pa : in_profile a) by (pose proof (all_in_profile_Forall alts Hp) as F; rewrite Forall_forall in F; apply F; exact Hin).
+    destruct (x691 a x) as [b|] eqn:Eb; [|discriminate Hx].
+    intros [C|[L C]].
+    + exact (Ka Wa Pa x b Hv Eb ltac:(tauto) C).
+    + apply Hk. right. split; [exact L|]. right.
+      exact (open16k_c02 m a x b Wa Pa Hv Eb ltac:(tauto) C).
+  - destruct v; exact (fun C => C).
+Qed.
+
+Theorem reader_accepts_x691 m t v bs : wf_ty t -> wf_val t v -> in_profile t -> ~ Known_C02 t v ->
+  x691 t v = Some bs ->
+  forall s tail, rsrc s bs tail ->
+  read_ty m t (r_of_src s) = Ok (v, r_of_src (src_adv s (bl bs) tail)).
+Proof.
+  intros Hty Hv Hp Hk Hx s tail Hs.
+  apply (read_enc m t Hty v bs (enc_is_x691 m t Hty Hp v bs Hv Hk Hx) Hv); [|exact Hs].
+  exact (known_c01_c02 m t Hty Hp v bs Hv Hx Hk).
+Qed.
+
+(** * witnesses of the deviation classes *)
+Definition x691_res (t : ty) (v : val) : res bits :=
+  match x691 t v with Some b => Ok b | None => Err 0 end.
+(* the reference encoder (= the writer) and X.691 disagree: different bits, or only one of them
+   has an encoding *)
+Definition deviates (m : mode) (t : ty) (v : val) : bool :=
+  match enc m t v, x691 t v with
+  | Ok a, Some b => negb (list_eqb Bool.eqb a b)
+  | Ok _, None => true
+  | _, Some _ => true
+  | _, None => false
+  end.
+Lemma list_eqb_bool_refl (a : bits) : list_eqb Bool.eqb a a = true.
+Proof. induction a as [|x a IH]; [reflexivity|]. cbn [list_eqb]. rewrite IH. destruct x; reflexivity. Qed.
+Lemma deviates_neq m t v : deviates m t v = true -> enc m t v <> x691_res t v.
+Proof.
+  unfold deviates, x691_res. destruct (enc m t v) as [a| |], (x691 t v) as [b|]; intros H E; try discriminate.
+  injection E as ->. rewrite list_eqb_bool_refl in H. discriminate H.
+Qed.
+
+Ltac wf_by_compute :=
+  vm_compute; repeat first [split | apply Forall_cons | apply Forall_nil];
+  try discriminate; try reflexivity; try (vm_compute; reflexivity).
+
+(* (1) OCTET STRING (SIZE (0..65536)), one octet: a 17-bit constrained length instead of 11.9.4.2 *)
+Lemma refuted_size_upper_bound_64k :
+  exists m t v, wf_ty t /\ wf_val t v /\ in_profile t /\
+    (exists lo hi ext bs, t = TOctets lo hi ext /\ v = VOctets bs /\ size_upper_bound_64k lo hi (blen bs)) /\
+    Known_C02 t v /\ deviates m t v = true.
+Proof.
+  exists dev_mode, (TOctets (Some 0) (Some 65536) false), (VOctets [1]).
+  assert (K : size_upper_bound_64k (Some 0) (Some 65536) (blen [1])).
+  { exists 65536. split; [reflexivity|]. vm_compute. repeat split; discriminate. }
+  split; [wf_by_compute|]. split; [wf_by_compute|]. split; [reflexivity|].
+  split; [do 4 eexists; split; [reflexivity|split; [reflexivity|exact K]]|]. split; [exact K|vm_compute; reflexivity].
+Qed.
+
+(* (2) IA5String of 16384 characters, unconstrained: X.691 fragments (11.9.3.8), the crate does not *)
+Lemma refuted_fragmentation_16k :
+  exists m t v, wf_ty t /\ wf_val t v /\ in_profile t /\
+    (exists c lo hi ext cs, t = TStr c lo hi ext /\ v = VStr cs /\ fragmentation_16k lo hi ext (N.of_nat (length cs))) /\
+    Known_C02 t v /\ deviates m t v = true.
+Proof.
+  exists dev_mode, (TStr Ia5 None None false), (VStr (repeat 65 16384)).
+  assert (K : fragmentation_16k None None false (N.of_nat (length (repeat 65 16384)))).
+  { rewrite repeat_length. split; [vm_compute; discriminate|]. left. split; [reflexivity|]. vm_compute. discriminate. }
+  split; [exact I|]. split.
+  - cbn [wf_val]. split; [|vm_compute; reflexivity].
+    apply Forall_forall. intros x Hx. apply repeat_spec in Hx. subst x. left. vm_compute. reflexivity.
+  - split; [reflexivity|]. split; [do 5 eexists; split; [reflexivity|split; [reflexivity|exact K]]|].
+    split; [right; exact K|vm_compute; reflexivity].
+Qed.
+
+(* (3) SEQUENCE { a BOOLEAN, ..., b NULL OPTIONAL } with b present: open type of length 0 *)
+Definition w3_ty : ty := TSeq [(FReq, TBool); (FOpt, TNull)] 0 2 (Some 0).
+Definition w3_val : val := VSeq [Some (VBool true); Some VNull].
+Lemma refuted_empty_open_type :
+  exists m t v, wf_ty t /\ wf_val t v /\ in_profile t /\
+    (t = w3_ty /\ v = w3_val /\ empty_open_type TNull VNull) /\
+    Known_C02 t v /\ deviates m t v = true.
+Proof.
+  exists dev_mode, w3_ty, w3_val.
+  split; [wf_by_compute|]. split; [wf_by_compute|]. split; [cbn; tauto|].
+  split; [repeat split|]. split; [|vm_compute; reflexivity].
+  right. right. left. split; [exact I|]. right. split; [cbn; lia|]. right. left. reflexivity.
+Qed.
+
+(* (4) SEQUENCE { a BOOLEAN, ..., c CHOICE { x BOOLEAN } } : the mandatory CHOICE addition is inline *)
+Definition w4_ty : ty := TSeq [(FReq, TBool); (FReq, TChoice [TBool] 1 false)] 0 2 (Some 0).
+Definition w4_val : val := VSeq [Some (VBool true); Some (VChoice 0 (VBool true))].
+Lemma refuted_mandatory_choice_addition_inline :
+  exists m t v, wf_ty t /\ wf_val t v /\ in_profile t /\
+    (t = w4_ty /\ v = w4_val /\ mandatory_choice_addition_inline FReq (TChoice [TBool] 1 false)) /\
+    Known_C02 t v /\ deviates m t v = true.
+Proof.
+  exists dev_mode, w4_ty, w4_val.
+  split; [wf_by_compute|]. split; [wf_by_compute|]. split; [cbn; tauto|].
+  split; [repeat split|]. split; [|vm_compute; reflexivity].
+  right. right. left. split; [exact I|]. right. split; [cbn; lia|]. left. reflexivity.
+Qed.
+
+(* (5) 65 extension additions, all present: 11.9.3.4 second form against a normally small number *)
+Definition w5_ty : ty := TSeq ((FReq, TBool) :: repeat (FOpt, TBool) 65) 0 66 (Some 0).
+Definition w5_val : val := VSeq (repeat (Some (VBool true)) 66).
+Lemma refuted_more_than_64_additions :
+  exists m t v, wf_ty t /\ wf_val t v /\ in_profile t /\
+    (exists fs so fc ea vals, t = TSeq fs so fc ea /\ v = VSeq vals /\
+       more_than_64_additions (skipn (root_len fs ea) (presents fs vals))) /\
+    Known_C02 t v /\ deviates m t v = true.
+Proof.
+  exists dev_mode, w5_ty, w5_val.
+  assert (K : more_than_64_additions (skipn (root_len ((FReq, TBool) :: repeat (FOpt, TBool) 65) (Some 0))
+                (presents ((FReq, TBool) :: repeat (FOpt, TBool) 65) (repeat (Some (VBool true)) 66)))).
+  { split; [vm_compute; reflexivity|]. vm_compute. lia. }
+  split; [wf_by_compute|]. split; [wf_by_compute|]. split; [vm_compute; tauto|].
+  split; [do 5 eexists; split; [reflexivity|split; [reflexivity|exact K]]|]. split; [|vm_compute; reflexivity].
+  left. left. exact K.
+Qed.
+
+(* (6) first addition absent, second present: refused (C03), X.691 has an encoding *)
+Definition w6_ty : ty := TSeq [(FReq, TBool); (FOpt, TBool); (FOpt, TBool)] 0 3 (Some 0).
+Definition w6_val : val := VSeq [Some (VBool true); None; Some (VBool true)].
+Lemma refuted_first_addition_absent :
+  exists m t v, wf_ty t /\ wf_val t v /\ in_profile t /\
+    (exists fs so fc ea vals, t = TSeq fs so fc ea /\ v = VSeq vals /\
+       first_addition_absent (skipn (root_len fs ea) (presents fs vals))) /\
+    Known_C02 t v /\ enc m t v = Err E_EXT_INCONSISTENT /\ deviates m t v = true.
+Proof.
+  exists dev_mode, w6_ty, w6_val.
+  assert (K : first_addition_absent (skipn (root_len [(FReq, TBool); (FOpt, TBool); (FOpt, TBool)] (Some 0))
+                (presents [(FReq, TBool); (FOpt, TBool); (FOpt, TBool)] [Some (VBool true); None; Some (VBool true)]))).
+  { vm_compute. split; reflexivity. }
+  split; [wf_by_compute|]. split; [wf_by_compute|]. split; [cbn; tauto|].
+  split; [do 5 eexists; split; [reflexivity|split; [reflexivity|exact K]]|]. split; [left; right; exact K|].
+  split; vm_compute; reflexivity.
+Qed.
+
+(* (7) unconstrained INTEGER (generated as u64), value 2^63: travels as its i64 reinterpretation *)
+Lemma refuted_int_beyond_i64 :
+  exists m t v, wf_ty t /\ wf_val t v /\ in_profile t /\
+    (exists k lo hi ext z, t = TInt k lo hi ext /\ v = VInt z /\ ~ is_i64 z) /\
+    Known_C02 t v /\ deviates m t v = true.
+Proof.
+  exists dev_mode, (TInt U64 None None false), (VInt 9223372036854775808).
+  assert (K : ~ is_i64 9223372036854775808) by (unfold is_i64; vm_compute; intros [_ C]; discriminate C).
+  split; [wf_by_compute|]. split; [wf_by_compute|]. split; [cbn; split; [reflexivity|discriminate]|].
+  split; [do 5 eexists; split; [reflexivity|split; [reflexivity|exact K]]|]. split; [exact K|vm_compute; reflexivity].
+Qed.
+
+(* (2') an open type of 16K octets: the writer fragments as X.691 says, the reader does not follow *)
+Definition reader_misses_x691 (m : mode) (t : ty) (v : val) : bool :=
+  match x691 t v with
+  | Some bs =>
+      match read_ty m t (r_of_src (src_of_bits bs (bl bs))) with
+      | Ok (v', r) => negb (val_eqb v v' && (s_pos (r_src r) =? bl bs))
+      | _ => true
+      end
+  | None => false
+  end.
+Lemma refuted_open_type_16k_reader :
+  exists m t v, wf_ty t /\ in_profile t /\ Known_C02 t v /\
+    deviates m t v = false /\ reader_misses_x691 m t v = true.
+Proof.
+  exists dev_mode, big_ext_ty, big_ext_val.
+  split; [vm_compute; repeat split; discriminate|]. split; [cbn; tauto|].
+  split; [|split; vm_compute; reflexivity].
+  right. right. left. split; [exact I|]. right. split; [cbn; lia|]. right. right.
+  assert (H : match x691 (TOctets None None false) (VOctets (repeat 7 16384)) with
+              | Some b => 16384 <=? (bl b + 7) / 8 | None => false end = true) by (vm_compute; reflexivity).
+  unfold open_type_16k. destruct (x691 (TOctets None None false) (VOctets (repeat 7 16384))) as [b|]; [|discriminate H].
+  exists b. split; [reflexivity|]. apply N.leb_le. exact H.
+Qed.
+
+(** * non-vacuity *)
+(* refutation of a closed [Known_C02] instance: walk the disjunctions, compute the leaves *)
+Ltac nk_leaf H :=
+  first [ solve [contradiction H] | solve [discriminate H] | lia | exact (H eq_refl)
+        | solve [apply H; unfold is_i64; vm_compute; split; [discriminate|reflexivity]] ].
+Ltac nk n H :=
+  lazymatch n with
+  | O => fail
+  | S ?n' =>
+  lazymatch type of H with
+  | False => contradiction H
+  | ?A \/ ?B => destruct H as [H|H]; nk n' H
+  | ?A /\ ?B =>
+      let H1 := fresh "L" in let H2 := fresh "R" in
+      destruct H as [H1 H2];
+      first [ solve [nk n' H1]
+            | (lazymatch type of H1 with
+               | _ = Some _ => vm_compute in H1; first [discriminate H1 | injection H1 as <-]
+               | _ => idtac
+               end; solve [nk n' H2]) ]
+  | exists _, _ => let x := fresh "x" in destruct H as [x H]; nk n' H
+  | _ => first [ nk_leaf H | (vm_compute in H; first [nk_leaf H | nk n' H]) ]
+  end
+  end.
+
+Lemma ex_not_known : ~ Known_C02 ex_ty ex_val.
+Proof.
+  intros K. unfold ex_ty, ex_val, ex_inner in K. cbn [Known_C02] in K. cbv zeta in K.
+  unfold open_type_16k, empty_open_type, mandatory_choice_addition_inline, Known_C02_size,
+    size_upper_bound_64k, fragmentation_16k, more_than_64_additions, first_addition_absent,
+    in_root, encoded, is_addition in K.
+  nk 40%nat K.
+Qed.
+
+Lemma nonvacuous_c02 :
+  wf_ty ex_ty /\ wf_val ex_ty ex_val /\ in_profile ex_ty /\ ~ Known_C02 ex_ty ex_val /\
+  exists bs, x691 ex_ty ex_val = Some bs /\ enc dev_mode ex_ty ex_val = Ok bs /\
+             enc release_mode ex_ty ex_val = Ok bs /\ bl bs = 128 /\
+             write_ty dev_mode ex_ty ex_val w_empty = Ok (w_append w_empty bs) /\
+             read_ty dev_mode ex_ty (r_of_src (src_of_bits (bs ++ [true; false]) (bl bs + 2)))
+             = Ok (ex_val, r_of_src (src_adv (src_of_bits (bs ++ [true; false]) (bl bs + 2)) (bl bs) [true; false])).
+Proof.
+  split; [vm_compute; repeat split; try discriminate; try reflexivity|].
+  split; [vm_compute; repeat split; try discriminate; try reflexivity|].
+  split; [vm_compute; repeat split; try discriminate; try reflexivity|].
+  split; [exact ex_not_known|].
+  eexists. split; [vm_compute; reflexivity|]. vm_compute. repeat split; reflexivity.
+Qed.
+
+(** * values that are not values of the type are not encoded *)
+Definition Jprop (m : mode) (t : ty) : Prop :=
+  wf_ty t -> in_profile t -> forall v, wf_val t v -> ~ Known_C02 t v ->
+  x691 t v = None -> is_ok (enc m t v) = false.
+
+Lemma x_constrained_some l u v : (l <= v <= u)%Z -> exists b, x_constrained l u v = Some b.
+Proof.
+  intros H. unfold x_constrained. replace ((l <=? v)%Z && (v <=? u)%Z) with true by lia. eauto.
+Qed.
+
+Lemma sized_none unit lo hi ext n body : x_sized_run unit lo hi ext n body = None ->
+  ext = false /\ (n < opt_or lo 0 \/ exists u, hi = Some u /\ u < n).
+Proof.
+  rewrite x_sized_run_eq. cbv zeta.
+  destruct ((opt_or lo 0 <=? n) && match hi with Some u => n <=? u | None => true end) eqn:E.
+  - destruct hi as [u|]; [|discriminate].
+    destruct (u =? 0); [discriminate|]. destruct ((opt_or lo 0 =? u) && (u <? 65536)); [discriminate|].
+    destruct (u <? 65536); [|discriminate].
+    destruct (x_constrained_some (Z.of_N (opt_or lo 0)) (Z.of_N u) (Z.of_N n) ltac:(lia)) as [b ->]. discriminate.
+  - destruct ext; [discriminate|]. intros _. split; [reflexivity|].
+    destruct hi as [u|]; [|left; lia].
+    destruct (N.ltb_spec n (opt_or lo 0)); [left; assumption|right; exists u; split; [reflexivity|lia]].
+Qed.
+
+Lemma J_int m k lo hi ext : Jprop m (TInt k lo hi ext).
+Proof.
+  intros (Hlo & Hhi & Hle) (Hp & Hpe) v Hv Hk Hx. destruct v; try (exfalso; exact Hv).
+  cbn [Known_C02] in Hk. cbn [x691] in Hx. cbn [enc]. unfold int_enc.
+  assert (Hz : is_i64 z) by (destruct (is_i64_dec z); tauto).
+  rewrite (to_i64_id z Hz). unfold x_integer, in_range in Hx.
+  destruct lo as [l|], hi as [h|]; cbn [is_some] in Hp; try discriminate Hp.
+  - destruct ((l <=? z)%Z && (z <=? h)%Z) eqn:Er.
+    + destruct (x_constrained_some l h z ltac:(lia)) as [b Eb]. rewrite Eb in Hx. discriminate Hx.
+    + destruct ext; [discriminate Hx|]. cbn [is_some negb andb opt_or].
+      rewrite constrained_reject by lia. reflexivity.
+  - cbn [andb] in Hx. discriminate Hx.
+Qed.
+
+Lemma J_enum m vc std ext : Jprop m (TEnum vc std ext).
+Proof.
+  intros _ _ v Hv _ Hx. destruct v; try (exfalso; exact Hv). cbn [x691] in Hx. cbn [enc wf_val] in *.
+  destruct (N.ltb_spec index vc); [|lia]. rewrite (index_reject m std ext index Hx). reflexivity.
+Qed.
+
+Lemma J_octets m lo hi ext : Jprop m (TOctets lo hi ext).
+Proof.
+  intros Hty Hp v Hv Hk Hx. destruct v; try (exfalso; exact Hv).
+  cbn [x691] in Hx. cbn [enc]. cbn [wf_val] in Hv. cbn [Known_C02] in Hk. cbn [in_profile] in Hp.
+  destruct Hv as [_ Hn].
+  rewrite octetstring_write; [rewrite Hx; reflexivity|unfold SIZE_LIMIT, two63 in *; lia|].
+  apply not_sized_known; assumption.
+Qed.
+
+Lemma J_bitstr m lo hi ext : Jprop m (TBitStr lo hi ext).
+Proof.
+  intros Hty Hp v Hv Hk Hx. destruct v; try (exfalso; exact Hv).
+  cbn [x691] in Hx. cbn [enc]. cbn [wf_val] in Hv.
+  destruct Hv as [Hc Hn]. destruct (canonical_content _ _ Hc) as (Hl & _ & Hle). cbv zeta in Hl.
+  unfold x_bitstring in Hx. fold (bl (firstn (N.to_nat bit_len) (bits_of_bytes bytes))) in Hx. rewrite Hl in Hx.
+  apply sized_none in Hx. destruct Hx as [-> Hr].
+  rewrite bitstring_reject; [reflexivity|]. destruct Hr as [Hr|(u & -> & Hr)]; [left; exact Hr|right; exact Hr].
+Qed.
+
+Lemma J_str m c lo hi ext : Jprop m (TStr c lo hi ext).
+Proof.
+  intros Hty Hp v Hv Hk Hx. destruct v; try (exfalso; exact Hv).
+  cbn [wf_val] in Hv. cbn [in_profile] in Hp. destruct Hv as [Hs Hn].
+  assert (Hlen : N.of_nat (length chars) < SIZE_LIMIT).
+  { pose proof (utf8_encode_len chars). unfold blen in Hn. lia. }
+  destruct (match c with Utf8 => true | _ => false end) eqn:Ec.
+  - destruct c; try discriminate Ec. cbn [x691] in Hx. cbn [enc].
+    destruct (in_size lo hi (N.of_nat (length chars)) || ext) eqn:Es.
+    + apply sized_none in Hx. destruct Hx as [_ [Hx|(u & Hx & _)]]; [cbn [opt_or] in Hx; lia|discriminate Hx].
+    + apply orb_false_iff in Es. destruct Es as [Es ->]. cbn [negb andb].
+      replace ((N.of_nat (length chars) <? opt_or lo 0) || (opt_or hi U64_MAX <? N.of_nat (length chars))) with true;
+        [reflexivity|].
+      unfold in_size in Es. destruct lo, hi; cbn [opt_or]; lia.
+  - assert (Hc : c <> Utf8) by (intros ->; discriminate Ec).
+    assert (Hx' : (if forallb (cs_valid c) chars
+                   then x_run (char_unit c) lo hi ext (N.of_nat (length chars)) (flat_map (x_char c) chars)
+                   else None) = None) by (destruct c; try discriminate Ec; exact Hx).
+    assert (He : enc m (TStr c lo hi ext) (VStr chars) =
+                 if find_invalid c chars then Err E_INVALID_STRING else
+                 let! h := len_hdr m ext lo hi U64_MAX (N.of_nat (length chars)) in
+                 Ok (h ++ flat_map (char_bits c) chars)) by (destruct c; try discriminate Ec; reflexivity).
+    assert (Hk' : ~ Known_C02_size lo hi ext (N.of_nat (length chars))) by (destruct c; try discriminate Ec; exact Hk).
+    rewrite He, find_invalid_forallb.
+    destruct (forallb (cs_valid c) chars) eqn:Ef; [|reflexivity]. cbn [negb].
+    unfold x_run in Hx'. rewrite sized_run_hdr in Hx'; [|exact Hp|exact Hk'|].
+    2:{ intros E0. destruct chars; [reflexivity|cbn [length] in E0; lia]. }
+    rewrite len_hdr_x; [|exact Hp|unfold U64_MAX, two64, SIZE_LIMIT in *; lia|exact Hk'].
+    destruct (x_hdr lo hi ext (N.of_nat (length chars))) as [h|]; [discriminate Hx'|]. reflexivity.
+Qed.
+
+Lemma elems_none m e : Jprop m e -> wf_ty e -> in_profile e -> forall vs,
+  all_wf_val e vs -> ~ any_known2 e vs -> x_all (x691 e) vs = None -> is_ok (enc_elems m e vs) = false.
+Proof.
+  intros IH Hty Hp. induction vs as [|x vs IHl]; intros Hv Hk Hx; [discriminate Hx|].
+  cbn [x_all] in Hx. cbn [all_wf_val] in Hv. destruct Hv as [Hv1 Hv2]. cbn [any_known2] in Hk.
+  change (enc_elems m e (x :: vs)) with (let! a := enc m e x in let! b := enc_elems m e vs in Ok (a ++ b)).
+  destruct (x691 e x) as [a|] eqn:Ea.
+  - destruct (x_all (x691 e) vs) as [b|] eqn:Eb; [discriminate Hx|].
+    destruct (enc m e x); try reflexivity. cbn [bind]. apply not_ok_bind. apply IHl; tauto.
+  - apply not_ok_bind. apply (IH Hty Hp x Hv1); tauto.
+Qed.
+
+Lemma J_list m e lo hi ext : Cprop m e -> Jprop m e -> Jprop m (TListOf e lo hi ext).
+Proof.
+  intros _ IH (Hb & Hty) (Hp & Hpe) v Hv Hk Hx. destruct v; try (exfalso; exact Hv).
+  rewrite x691_list_eq in Hx. cbn [wf_val] in Hv. destruct Hv as [Hn Hv]. cbn [Known_C02] in Hk.
+  change (enc m (TListOf e lo hi ext) (VList vs)) with
+    (let! h := len_hdr m ext lo hi I64_MAX (N.of_nat (length vs)) in
+     let! body := enc_elems m e vs in Ok (h ++ body)).
+  rewrite len_hdr_x; [|exact Hp|unfold I64_MAX, two63, SIZE_LIMIT in *; lia|tauto].
+  destruct (x_all (x691 e) vs) as [body|] eqn:Eb.
+  - rewrite list_form_hdr in Hx; [|exact Hp|tauto].
+    destruct (x_hdr lo hi ext (N.of_nat (length vs))) as [h|]; [discriminate Hx|]. reflexivity.
+  - destruct (x_hdr lo hi ext (N.of_nat (length vs))) as [h|]; [|reflexivity]. cbn [bind].
+    apply not_ok_bind. apply (elems_none m e IH Hty Hpe vs Hv); tauto.
+Qed.
+
+Lemma J_fields m ea : forall fs, Forall (fun f => Jprop m (snd f)) fs -> all_wf_fields fs -> all_prof_fields fs ->
+  forall vals i, all_wf_vals fs vals -> ~ any_known_f2 ea fs vals i -> x_comps fs vals = None ->
+  is_ok (enc_fields m fs vals) = false.
+Proof.
+  induction fs as [|[k ft] fs IHl]; intros F Hty Hp [|ov vals] i Hv Hk Hx; try contradiction Hv.
+  - discriminate Hx.
+  - apply Forall_cons_iff in F. destruct F as [HJ F]. cbn [snd] in HJ.
+    cbn [all_wf_fields] in Hty. destruct Hty as (Ht & Hd & Hty).
+    cbn [all_prof_fields] in Hp. destruct Hp as (Hp1 & Hp).
+    cbn [all_wf_vals] in Hv. destruct Hv as [Hv1 Hv].
+    cbn [any_known_f2] in Hk. rewrite x_comps_cons in Hx. rewrite enc_fields_cons.
+    destruct (x_comp (k, ft) ov) as [c|] eqn:Ec.
+    + destruct (x_comps fs vals) as [r|] eqn:Er; [discriminate Hx|].
+      destruct (enc_field m (k, ft) ov); try reflexivity. cbn [bind]. apply not_ok_bind.
+      apply (IHl F Hty Hp vals (S i) Hv); tauto.
+    + apply not_ok_bind. unfold known_field in Hk.
+      assert (Hn : forall x, ov = Some x -> encoded k x -> x691 ft x = None -> is_ok (enc m ft x) = false).
+      { intros x -> He En. apply (HJ Ht Hp1 x Hv1); [|exact En]. intros K. apply Hk. left. split; [exact He|left; exact K]. }
+      destruct k as [| |d], ov as [x|]; cbn [x_comp] in Ec; try discriminate Hv1; try discriminate Ec; cbn [enc_field].
+      * destruct (x691 ft x) eqn:En; [discriminate Ec|]. apply not_ok_bind. apply (Hn x eq_refl I En).
+      * destruct (x691 ft x) eqn:En; [discriminate Ec|]. apply not_ok_bind. apply (Hn x eq_refl I En).
+      * destruct (val_eqb d x) eqn:Ed; [discriminate Ec|].
+        destruct (x691 ft x) eqn:En; [discriminate Ec|]. apply not_ok_bind. apply (Hn x eq_refl Ed En).
+Qed.
+
+Lemma J_seq m fs so fc ea : Forall (fun f => Jprop m (snd f)) fs -> Jprop m (TSeq fs so fc ea).
+Proof.
+  intros IH Hty Hp v Hv Hk Hx. destruct v; try (exfalso; exact Hv). rename fields into vals.
+  apply wf_ty_seq in Hty. destruct Hty as [_ Hf].
+  rewrite x691_seq_eq in Hx. rewrite enc_seq_eq.
+  change (wf_val (TSeq fs so fc ea) (VSeq vals)) with (all_wf_vals fs vals) in Hv.
+  change (in_profile (TSeq fs so fc ea)) with (all_prof_fields fs) in Hp.
+  change (Known_C02 (TSeq fs so fc ea) (VSeq vals)) with
+    ((let ps := skipn (root_len fs ea) (presents fs vals) in
+      more_than_64_additions ps \/ first_addition_absent ps) \/ any_known_f2 ea fs vals 0) in Hk.
+  destruct (x_comps fs vals) as [cs|] eqn:Ec; [discriminate Hx|].
+  apply not_ok_bind. apply (J_fields m ea fs IH Hf Hp vals 0%nat Hv); tauto.
+Qed.
+
+Lemma J_choice m alts std ext : Forall (Jprop m) alts -> Jprop m (TChoice alts std ext).
+Proof.
+  intros IH (H1 & H2 & H3 & H4 & Hty) Hp v Hv Hk Hx. destruct v; try (exfalso; exact Hv).
+  rename index into i, v into x.
+  rewrite x691_choice_eq in Hx.
+  change (wf_val (TChoice alts std ext) (VChoice i x)) with (pick_wf x alts (N.to_nat i)) in Hv.
+  change (Known_C02 (TChoice alts std ext) (VChoice i x)) with (known_pick std i x alts (N.to_nat i)) in Hk.
+  change (enc m (TChoice alts std ext) (VChoice i x)) with
+    (let! ib := w_enumeration_index m std ext i in
+     let! cb := enc_pick m x alts (N.to_nat i) in
+     if std <=? i then let! wb := wrap_open m cb in Ok (ib ++ wb) else Ok (ib ++ cb)).
+  rewrite pick_wf_nth in Hv. rewrite known_pick_nth in Hk. rewrite x_pick_nth in Hx. rewrite enc_pick_nth.
+  destruct (nth_error alts (N.to_nat i)) as [a|] eqn:En; [|contradiction Hv].
+  assert (Li : i < N.of_nat (length alts)).
+  { pose proof (proj1 (nth_error_Some alts (N.to_nat i)) ltac:(congruence)). lia. }
+  destruct (N.leb_spec (N.of_nat (length alts)) i) as [Li'|_]; [lia|].
+  pose proof (nth_error_In _ _ En) as Hin.
+  assert (Ja : Jprop m a) by (rewrite Forall_forall in IH; apply IH; exact Hin).
+  assert (Wa : wf_ty a) by (pose proof (all_wf_ty_Forall alts Hty) as F; rewrite Forall_forall in F; apply F; exact Hin).
+  assert (Pa : in_profile a) by (pose proof (all_in_profile_Forall alts Hp) as F; rewrite Forall_forall in F; apply F; exact Hin).
+  destruct (x691 a x) as [b|] eqn:Eb.
+  - destruct (N.ltb_spec i std) as [L|L].
+    + destruct (x_constrained_some 0 (Z.of_N std - 1) (Z.of_N i) ltac:(lia)) as [ib Ei]. rewrite Ei in Hx. discriminate Hx.
+    + destruct ext; [discriminate Hx|]. rewrite index_reject; [reflexivity|].
+      apply x_index_none. split; [exact L|reflexivity].
+  - destruct (w_enumeration_index m std ext i); try reflexivity. cbn [bind]. apply not_ok_bind.
+    apply (Ja Wa Pa x Hv); tauto.
+Qed.
+
+Theorem not_a_value_not_encoded m t : Jprop m t.
+Proof.
+  induction t using ty_ind'.
+  - intros _ _ v Hv _ Hx. destruct v; try (exfalso; exact Hv). discriminate Hx.
+  - intros _ _ v Hv _ Hx. destruct v; try (exfalso; exact Hv). discriminate Hx.
+  - apply J_int.
+  - apply J_str.
+  - apply J_octets.
+  - apply J_bitstr.
+  - apply J_list; [apply enc_is_x691|assumption].
+  - apply J_seq; assumption.
+  - apply J_choice; assumption.
+  - apply J_enum.
+Qed.
+
+Theorem not_a_value_rejected m t v w : wf_ty t -> wf_val t v -> in_profile t -> ~ Known_C02 t v ->
+  x691 t v = None -> wst_wf w -> w_scope w = None -> is_ok (write_ty m t v w) = false.
+Proof.
+  intros Hty Hv Hp Hk Hx Hw Hs. pose proof (write_enc m t Hty v w Hw Hs) as S.
+  pose proof (not_a_value_not_encoded m t Hty Hp v Hv Hk Hx) as E.
+  unfold wsim in S. destruct (enc m t v); [discriminate E|exact S|exact S].
+Qed.
+
+(** * values of the ASN.1 type: [x691] is defined on them outside the classes *)
+Fixpoint sat (t : ty) (v : val) {struct t} : Prop :=
+  match t, v with
+  | TBool, VBool _ => True
+  | TNull, VNull => True
+  | TInt _ lo hi ext, VInt z => ext = true \/ in_range lo hi z = true
+  | TEnum vc std ext, VEnum i => i < vc /\ (ext = true \/ i < std)
+  | TStr c lo hi ext, VStr cs =>
+      forallb (cs_valid c) cs = true /\ (ext = true \/ in_root lo hi (N.of_nat (length cs)))
+  | TOctets lo hi ext, VOctets bs => ext = true \/ in_root lo hi (blen bs)
+  | TBitStr lo hi ext, VBits _ n => ext = true \/ in_root lo hi n
+  | TListOf e lo hi ext, VList vs =>
+      (ext = true \/ in_root lo hi (N.of_nat (length vs))) /\
+      (fix all (vs : list val) : Prop := match vs with [] => True | x :: r => sat e x /\ all r end) vs
+  | TSeq fs _ _ _, VSeq vals =>
+      (fix all (fs : list (fkind * ty)) (vals : list (option val)) : Prop :=
+         match fs, vals with
+         | [], [] => True
+         | (k, ft) :: fs', ov :: vals' =>
+             match ov with Some x => sat ft x | None => k = FOpt end /\ all fs' vals'
+         | _, _ => False
+         end) fs vals
+  | TChoice alts std ext, VChoice i x =>
+      (ext = true \/ i < std) /\
+      (fix pick (alts : list ty) (n : nat) : Prop :=
+         match alts, n with
+         | a :: _, O => sat a x
+         | _ :: r, S n' => pick r n'
+         | [], _ => False
+         end) alts (N.to_nat i)
+  | _, _ => False
+  end.
+
+Definition Sprop (t : ty) : Prop :=
+  wf_ty t -> in_profile t -> forall v, wf_val t v -> sat t v -> ~ Known_C02 t v -> x691 t v <> None.
+
+Lemma sized_defined unit lo hi ext n body : ext = true \/ in_root lo hi n ->
+  x_sized_run unit lo hi ext n body <> None.
+Proof.
+  intros H C. apply sized_none in C. destruct C as [-> C]. destruct H as [H|[H1 H2]]; [discriminate H|].
+  destruct C as [C|(u & -> & C)]; lia.
+Qed.
+
+Lemma x_hdr_defined lo hi ext n : ext = true \/ in_root lo hi n -> x_hdr lo hi ext n <> None.
+Proof.
+  intros H. unfold x_hdr. cbv zeta.
+  destruct ((opt_or lo 0 <=? n) && match hi with Some u => n <=? u | None => true end) eqn:E.
+  - destruct hi as [u|]; [|discriminate].
+    destruct (x_constrained_some (Z.of_N (opt_or lo 0)) (Z.of_N u) (Z.of_N n) ltac:(lia)) as [b ->]. discriminate.
+  - destruct ext; [discriminate|]. destruct H as [H|[H1 H2]]; [discriminate H|]. destruct hi; lia.
+Qed.
+
+Definition all_sat_fields :=
+  fix all (fs : list (fkind * ty)) (vals : list (option val)) : Prop :=
+    match fs, vals with
+    | [], [] => True
+    | (k, ft) :: fs', ov :: vals' =>
+        match ov with Some x => sat ft x | None => k = FOpt end /\ all fs' vals'
+    | _, _ => False
+    end.
+Definition pick_sat (x : val) :=
+  fix pick (alts : list ty) (n : nat) : Prop :=
+    match alts, n with a :: _, O => sat a x | _ :: r, S n' => pick r n' | [], _ => False end.
+Lemma pick_sat_nth x : forall alts k,
+  pick_sat x alts k = match nth_error alts k with Some a => sat a x | None => False end.
+Proof. induction alts as [|a alts IH]; intros [|k]; cbn [pick_sat nth_error]; auto. Qed.
+
+Lemma S_fields ea : forall fs, Forall (fun f => Sprop (snd f)) fs -> all_wf_fields fs -> all_prof_fields fs ->
+  forall vals i, all_wf_vals fs vals -> all_sat_fields fs vals -> ~ any_known_f2 ea fs vals i ->
+  x_comps fs vals <> None.
+Proof.
+  induction fs as [|[k ft] fs IHl]; intros F Hty Hp [|ov vals] i Hv Hs Hk; try contradiction Hv.
+  - discriminate.
+  - apply Forall_cons_iff in F. destruct F as [HS F]. cbn [snd] in HS.
+    cbn [all_wf_fields] in Hty. destruct Hty as (Ht & Hd & Hty).
+    cbn [all_prof_fields] in Hp. destruct Hp as (Hp1 & Hp).
+    cbn [all_wf_vals] in Hv. destruct Hv as [Hv1 Hv].
+    cbn [all_sat_fields] in Hs. destruct Hs as [Hs1 Hs].
+    cbn [any_known_f2] in Hk. rewrite x_comps_cons.
+    pose proof (IHl F Hty Hp vals (S i) Hv Hs ltac:(tauto)) as Hr.
+    destruct (x_comps fs vals) as [r|]; [|congruence].
+    assert (Hc : x_comp (k, ft) ov <> None).
+    { unfold known_field in Hk.
+      assert (Hn : forall x, ov = Some x -> encoded k x -> x691 ft x <> None).
+      { intros x -> He. apply (HS Ht Hp1 x Hv1 Hs1). intros K. apply Hk. left. split; [exact He|left; exact K]. }
+      destruct k as [| |d], ov as [x|]; cbn [x_comp]; try discriminate Hv1; try discriminate.
+      - pose proof (Hn x eq_refl I). destruct (x691 ft x); [discriminate|congruence].
+      - pose proof (Hn x eq_refl I). destruct (x691 ft x); [discriminate|congruence].
+      - destruct (val_eqb d x) eqn:Ed; [discriminate|].
+        pose proof (Hn x eq_refl Ed). destruct (x691 ft x); [discriminate|congruence]. }
+    destruct (x_comp (k, ft) ov); [discriminate|congruence].
+Qed.
+
+Theorem sat_defined t : Sprop t.
+Proof.
+  induction t using ty_ind'; intros Hty Hp v Hv Hs Hk; destruct v; try (exfalso; exact Hv).
+  - discriminate.
+  - discriminate.
+  - cbn [x691 sat] in *. unfold x_integer.
+    destruct (in_range lo hi z) eqn:Er.
+    + unfold in_range in Er. destruct lo as [l|], hi as [h|]; cbn [is_some] in Hp; destruct Hp as [Hp _]; try discriminate Hp.
+      * destruct (x_constrained_some l h z ltac:(lia)) as [b ->]. discriminate.
+      * discriminate.
+    + destruct Hs as [->|Hs]; [discriminate|discriminate Hs].
+  - (* strings *)
+    cbn [sat in_profile wf_val] in *. destruct Hs as [Hf Hs].
+    destruct (match c with Utf8 => true | _ => false end) eqn:Ec.
+    + destruct c; try discriminate Ec. cbn [x691].
+      replace (in_size lo hi (N.of_nat (length chars)) || e) with true.
+      * apply sized_defined. right. unfold in_root. cbn [opt_or]. split; [lia|exact I].
+      * destruct Hs as [->|[H1 H2]]; [rewrite orb_true_r; reflexivity|].
+        unfold in_size. destruct lo, hi; cbn [opt_or] in *; lia.
+    + assert (E : x691 (TStr c lo hi e) (VStr chars) =
+                  if forallb (cs_valid c) chars
+                  then x_run (char_unit c) lo hi e (N.of_nat (length chars)) (flat_map (x_char c) chars)
+                  else None) by (destruct c; try discriminate Ec; reflexivity).
+      rewrite E, Hf. apply sized_defined. exact Hs.
+  - cbn [x691 sat] in *. apply sized_defined. exact Hs.
+  - cbn [x691 sat wf_val] in *. destruct Hv as [Hc Hn].
+    destruct (canonical_content _ _ Hc) as (Hl & _ & Hle). cbv zeta in Hl.
+    unfold x_bitstring. fold (bl (firstn (N.to_nat bit_len) (bits_of_bytes bytes))). rewrite Hl.
+    apply sized_defined. exact Hs.
+  - (* SEQUENCE OF *)
+    destruct Hty as [Hb Hty]. destruct Hp as [Hp Hpe]. rewrite x691_list_eq.
+    cbn [wf_val] in Hv. destruct Hv as [Hn Hv]. cbn [Known_C02] in Hk. cbn [sat] in Hs. destruct Hs as [Hs1 Hs].
+    assert (Ha : x_all (x691 t) vs <> None).
+    { assert (Hk2 : ~ any_known2 t vs) by tauto. clear Hk Hn Hs1.
+      induction vs as [|y vs IHl]; [discriminate|]. cbn [x_all]. cbn [all_wf_val] in Hv. cbn [any_known2] in Hk2.
+      pose proof (IHt Hty Hpe y (proj1 Hv) (proj1 Hs) ltac:(tauto)) as H1.
+      pose proof (IHl (proj2 Hv) (proj2 Hs) ltac:(tauto)) as H2.
+      destruct (x691 t y); [|congruence]. destruct (x_all (x691 t) vs); [discriminate|congruence]. }
+    destruct (x_all (x691 t) vs) as [body|]; [|congruence].
+    rewrite list_form_hdr; [|exact Hp|tauto].
+    pose proof (x_hdr_defined lo hi x (N.of_nat (length vs)) Hs1) as Hh.
+    destruct (x_hdr lo hi x (N.of_nat (length vs))); [discriminate|congruence].
+  - (* SEQUENCE *)
+    rename fields into vals. apply wf_ty_seq in Hty. destruct Hty as [_ Hf]. rewrite x691_seq_eq.
+    change (wf_val (TSeq fs so fc ea) (VSeq vals)) with (all_wf_vals fs vals) in Hv.
+    change (in_profile (TSeq fs so fc ea)) with (all_prof_fields fs) in Hp.
+    change (sat (TSeq fs so fc ea) (VSeq vals)) with (all_sat_fields fs vals) in Hs.
+    change (Known_C02 (TSeq fs so fc ea) (VSeq vals)) with
+      ((let ps := skipn (root_len fs ea) (presents fs vals) in
+        more_than_64_additions ps \/ first_addition_absent ps) \/ any_known_f2 ea fs vals 0) in Hk.
+    pose proof (S_fields ea fs H Hf Hp vals 0%nat Hv Hs ltac:(tauto)) as Hc.
+    destruct (x_comps fs vals); [discriminate|congruence].
+  - (* CHOICE *)
+    rename index into i, v into x. destruct Hty as (H1 & H2 & H3 & H4 & Hty). rewrite x691_choice_eq.
+    change (wf_val (TChoice alts std ext) (VChoice i x)) with (pick_wf x alts (N.to_nat i)) in Hv.
+    change (Known_C02 (TChoice alts std ext) (VChoice i x)) with (known_pick std i x alts (N.to_nat i)) in Hk.
+    change (sat (TChoice alts std ext) (VChoice i x)) with
+      ((ext = true \/ i < std) /\ pick_sat x alts (N.to_nat i)) in Hs.
+    destruct Hs as [Hs1 Hs].
+    rewrite pick_wf_nth in Hv. rewrite known_pick_nth in Hk. rewrite pick_sat_nth in Hs. rewrite x_pick_nth.
+    destruct (nth_error alts (N.to_nat i)) as [a|] eqn:En; [|contradiction Hv].
+    assert (Li : i < N.of_nat (length alts)).
+    { pose proof (proj1 (nth_error_Some alts (N.to_nat i)) ltac:(congruence)). lia. }
+    destruct (N.leb_spec (N.of_nat (length alts)) i) as [Li'|_]; [lia|].
+    pose proof (nth_error_In _ _ En) as Hin.
+    assert (Sa : Sprop a) by (rewrite Forall_forall in H; apply H; exact Hin).
+    assert (Wa : wf_ty a) by (pose proof (all_wf_ty_Forall alts Hty) as F; rewrite Forall_forall in F; apply F; exact Hin).
+    assert (Pa : in_profile a) by (pose proof (all_in_profile_Forall alts Hp) as F; rewrite Forall_forall in F; apply F; exact Hin).
+    pose proof (Sa Wa Pa x Hv Hs ltac:(tauto)) as Hb.
+    destruct (x691 a x) as [b|]; [|congruence].
+    destruct (N.ltb_spec i std) as [L|L].
+    + destruct (x_constrained_some 0 (Z.of_N std - 1) (Z.of_N i) ltac:(lia)) as [ib ->]. discriminate.
+    + destruct Hs1 as [->|Hs1]; [discriminate|lia].
+  - cbn [x691 sat wf_val] in *. destruct Hs as [Hs1 Hs2]. destruct (N.ltb_spec index vc); [|lia].
+    unfold x_index. destruct (N.ltb_spec index std) as [L|L].
+    + destruct (x_constrained_some 0 (Z.of_N std - 1) (Z.of_N index) ltac:(lia)) as [ib ->]. discriminate.
+    + destruct Hs2 as [->|Hs2]; [discriminate|lia].
+Qed.
+
+(* the statement of C02 with the hypothesis "v is a value of the type" spelled out *)
+Theorem reference_is_x691_sat m t v : wf_ty t -> wf_val t v -> in_profile t -> sat t v ->
+  ~ Known_C02 t v -> exists bs, x691 t v = Some bs /\ enc m t v = Ok bs.
+Proof.
+  intros Hty Hv Hp Hs Hk. apply reference_is_x691; try assumption.
+  exact (sat_defined t Hty Hp v Hv Hs Hk).
+Qed.
+
+Example nonvacuous_sat : sat ex_ty ex_val.
+Proof. vm_compute. intuition (try reflexivity; try discriminate). Qed.
+
+(* both directions in one statement: outside the classes the writer answers exactly what X.691 says *)
+Theorem writer_exact m t v w : wf_ty t -> wf_val t v -> in_profile t -> ~ Known_C02 t v ->
+  wst_wf w -> w_scope w = None ->
+  match x691 t v with
+  | Some bs => write_ty m t v w = Ok (w_append w bs)
+  | None => is_ok (write_ty m t v w) = false
+  end.
+Proof.
+  intros Hty Hv Hp Hk Hw Hs. destruct (x691 t v) as [bs|] eqn:E.
+  - apply writer_is_x691; assumption.
+  - apply not_a_value_rejected; assumption.
+Qed.
